@@ -40,7 +40,7 @@ for d in sorted(glob.glob('/verif/seeded/C*-*'), key=seedkey):
             break
     rows.append((name, (meta.get('summary') or '')[:110].replace('|', '/').replace('\n', ' '), '; '.join(caught) if caught else 'NOT CAUGHT'))
     print(rows[-1], flush=True)
-with open('/verif/seeded/KILLTABLE.md', 'w') as f:
-    f.write('| seed | change | caught by (quick tier, VERIF_SEED=1) |\n|---|---|---|\n')
+with open(os.environ.get('KILLTABLE_OUT', '/verif/seeded/KILLTABLE.md'), 'w') as f:
+    f.write('| seed | change | caught by (quick tier, VERIF_SEED=%s) |' % os.environ.get('VERIF_SEED', '1') + '\n|---|---|---|\n')
     for r in rows:
         f.write('| %s | %s | %s |\n' % r)
